@@ -258,20 +258,22 @@ def table_valid(t):
 _BN = [("add_node", (10, 4)), ("add_nodes", (6, 2)), ("add_edge", (24, 10)), ("add_edges", (8, 4)),
        ("add_cpd", (12, 10)), ("complete", (3, 7)), ("remove_node", (3, 9)), ("remove_nodes", (1, 3)),
        ("remove_cpds", (3, 6)), ("do", (3, 9)), ("copy", (5, 8)), ("random_cpds", (3, 6)),
-       ("check_model", (4, 5)), ("query", (3, 7)), ("get_cpds", (2, 2))]
+       ("check_model", (4, 5)), ("query", (3, 7)), ("get_cpds", (2, 2)), ("edit_cpd", (1, 4))]
 OP_TABLE = {
     "bn": _BN,
     "dag": _BN + [("construct", (14, 9))],
     "dbn": [("add_node", (8, 3)), ("add_nodes", (5, 2)), ("add_edge", (28, 14)), ("add_edges", (8, 5)),
             ("add_cpd", (12, 12)), ("complete", (3, 7)), ("remove_node", (4, 9)), ("remove_nodes", (1, 3)),
             ("remove_cpds", (3, 6)), ("do", (3, 8)), ("copy", (5, 9)), ("check_model", (4, 6)),
-            ("get_cpds", (3, 4))],
+            ("get_cpds", (3, 4)), ("edit_cpd", (1, 5))],
     "mn": [("add_node", (10, 4)), ("add_nodes", (6, 2)), ("add_edge", (26, 12)), ("add_edges", (8, 5)),
            ("add_factor", (12, 12)), ("remove_node", (3, 9)), ("remove_nodes", (1, 3)),
-           ("remove_factors", (3, 7)), ("copy", (5, 9)), ("check_model", (4, 6)), ("query", (3, 6))],
+           ("remove_factors", (3, 7)), ("copy", (5, 9)), ("check_model", (4, 6)), ("query", (3, 6)),
+           ("edit_factor", (1, 4))],
     "jt": [("add_node", (12, 5)), ("add_nodes", (6, 2)), ("add_edge", (28, 16)), ("add_edges", (8, 6)),
            ("add_factor", (10, 12)), ("remove_node", (3, 8)), ("remove_nodes", (1, 3)),
-           ("remove_factors", (3, 6)), ("copy", (5, 9)), ("check_model", (4, 6)), ("query", (2, 4))],
+           ("remove_factors", (3, 6)), ("copy", (5, 9)), ("check_model", (4, 6)), ("query", (2, 4)),
+           ("edit_factor", (1, 4))],
 }
 BAD_RATE = {"add_edge": 0.32, "add_edges": 0.35, "copy": 0.0, "check_model": 0.0, "complete": 0.0,
             "query": 0.0, "add_node": 0.15, "add_nodes": 0.15, "construct": 0.4}
@@ -349,7 +351,7 @@ class History:
         if "latents" in self.neutral and isinstance(getattr(o, "latents", None), set):
             o.latents = set(o.latents)
         self.pool.append(e)
-        if len(self.pool) > MAXPOOL:
+        if len(self.pool) > self.spec.get("maxpool", MAXPOOL):
             del self.pool[1 + rng.randrange(len(self.pool) - 2)]
         self.stats["max_pool"] = max(self.stats["max_pool"], len(self.pool))
         return e
@@ -873,6 +875,18 @@ class History:
         v = self._unknown(ent, rng)
         return Plan(lambda: o.remove_cpds(v), f"remove_cpds({v!r}) [unknown node]")
 
+    def bn_edit_cpd(self, ent, st, rng):
+        """Aliasing probe: edit one CPD of the target in place through its public API (the handle a user gets
+        from get_cpds); a copy that shares CPD objects with its source shows up as a change of the other model."""
+        o = ent.o
+        cands = [c for c in self._sorted_tables(getattr(o, "cpds", [])) if len(c.variables) > 1]
+        if not cands:
+            return Plan(lambda: len(o.get_cpds()), "get_cpds() [no CPD with parents to edit]", mut="read")
+        c = rng.choice(cands)
+        p = rng.choice(sorted(c.variables[1:], key=rk))
+        return Plan(lambda: c.marginalize([p], inplace=True),
+                    f"get_cpds({nk(c.variable)!r}).marginalize([{nk(p)!r}], inplace=True)")
+
     def bn_do(self, ent, st, rng):
         o = ent.o
         present = self._present(ent)
@@ -1031,6 +1045,19 @@ class History:
         f = rng.choice(lst)
         return Plan(lambda: o.remove_factors(f), f"remove_factors(phi({[nk(v) for v in f.variables]!r}))")
 
+    def mn_edit_factor(self, ent, st, rng):
+        """Aliasing probe: edit one factor of the target in place through its public API."""
+        o = ent.o
+        lst = self._sorted_tables(o.factors)
+        if not lst:
+            return Plan(lambda: len(o.get_factors()), "get_factors() [no factor to edit]", mut="read")
+        f = rng.choice(lst)
+        if len(f.variables) > 1 and st["flag"]:
+            v = rng.choice(sorted(f.variables, key=rk))
+            return Plan(lambda: f.marginalize([v], inplace=True),
+                        f"<factor {[nk(x) for x in f.variables]!r}>.marginalize([{nk(v)!r}], inplace=True)")
+        return Plan(lambda: f.normalize(inplace=True), f"<factor {[nk(x) for x in f.variables]!r}>.normalize(inplace=True)")
+
     def mn_query(self, ent, st, rng):
         o = ent.o
         return Plan(lambda: len(o.get_factors()), "get_factors() / query", mut="read")
@@ -1040,6 +1067,7 @@ class History:
     jt_check_model = bn_check_model
     jt_remove_factors = mn_remove_factors
     jt_query = mn_query
+    jt_edit_factor = mn_edit_factor
 
     def _jt_unknown(self, ent, rng):
         absent = self._absent(ent)
@@ -1147,6 +1175,7 @@ class History:
     # ===== dynamic Bayesian network =====
     dbn_copy = bn_copy
     dbn_check_model = bn_check_model
+    dbn_edit_cpd = bn_edit_cpd
 
     def _dbn_names(self, ent):
         return sorted({nk(n)[0] for n in ent.o._node}, key=repr)
